@@ -275,6 +275,23 @@ func VH_C06_SyncWake() {
 	case <-done:
 		vReach("sync-left")
 		vAssert(time.Since(start) <= 200*time.Millisecond+4*time.Second+100*time.Millisecond, "resend returned later than writes + awaiting timeout + one resend timeout")
+		// NACK(top) says the peer has everything: when it is processed while
+		// the send loop is already waiting for the sync (after the writes),
+		// the wait ends there and then - the window is empty, a Send must not
+		// stay blocked behind the rest of the awaiting timeout
+		nackAt := -1
+		if e1 == 2 && t1 >= 2 {
+			nackAt = t1
+		} else if e2 == 2 && t2 >= 2 && e1 != 2 {
+			// (an earlier NACK(top) that came before the send loop listened
+			// has already ended the sync for the syncer; the loop then sits
+			// out its timeout - bounded, and not asserted against here)
+			nackAt = t2
+		}
+		if nackAt >= 0 {
+			vReach("sync-nack-top")
+			vAssert(time.Since(start) <= at[nackAt]+150*time.Millisecond, "the sync wait went on after NACK(top) had been processed: the send loop stays blocked although nothing is outstanding")
+		}
 	case <-time.After(30 * time.Second):
 		vReach("sync-stuck")
 		vAssert(false, "the send loop is still waiting for the post-resend sync 30 s later: no timeout left to end it (silent stall)")
